@@ -41,7 +41,7 @@ META = {
     "level_note": "Trusted: Python set arithmetic in the oracle; for sessions the in-process executor as re-verification base.",
 }
 PLAN = {
-    "quick": {"shards": 8, "examples": 6000, "sessions": 8},
+    "quick": {"shards": 8, "examples": 6000, "sessions": 16},
     "thorough": {"shards": 16, "examples": 600000, "sessions": 400, "timeout": 3000},
 }
 
